@@ -341,7 +341,87 @@ fn learned_then_ansi(run: &Run) {
     );
 }
 
+fn ansi_switch_case(run: &Run, phonetic: bool, w: &str, english: bool, end: u8, to_ansi: bool, st: &mut Stats) -> Result<(), Failure> {
+    let sb = Sandbox::new();
+    let mut off = Opts::parse(if phonetic { "sq" } else { "Pfq" });
+    off.english = english;
+    let mut on = off;
+    on.ansi = true;
+    let (first, second) = if to_ansi { (off, on) } else { (on, off) };
+    let case = || json!({"ansi_switch": {"text": w, "phonetic": phonetic, "english": english, "ending": end, "to_ansi": to_ansi}});
+    let pf = |p: crate::driver::PanicInfo| Failure::new(panic_kind(&p), p.to_string(), case());
+    let mut ctx = Ctx::new(first, &sb).map_err(pf)?;
+    let r0 = ctx.type_frontend(w).map_err(pf)?;
+    match end {
+        0 => ctx.finish().map_err(pf)?,
+        1 => {
+            if r0.as_ref().map(|r| r.choices() > 0).unwrap_or(false) {
+                ctx.commit(0).map_err(pf)?;
+            }
+        }
+        2 => {
+            ctx.backspace(true).map_err(pf)?;
+        }
+        _ => {
+            for _ in 0..(3 * w.chars().count() + 2) {
+                if !ctx.ongoing() {
+                    break;
+                }
+                ctx.backspace(false).map_err(pf)?;
+            }
+        }
+    }
+    if ctx.ongoing() {
+        ctx.finish().map_err(pf)?;
+    }
+    ctx.update_with(second, &sb, if end == 4 { crate::driver::UpdateMode::KeepChanged } else { crate::driver::UpdateMode::NewObject }).map_err(pf)?;
+    let mut sel = 0u8;
+    for (i, ch) in w.chars().enumerate() {
+        let r = ctx.ch(ch, sel).map_err(pf)?;
+        sel = if r.lonely { 0 } else { r.sel.min(255) as u8 };
+        let typed: String = w.chars().take(i + 1).collect();
+        judge(run, st, &second, &r, if phonetic { Some(typed.as_str()) } else { None }, &case)?;
+    }
+    ctx.finish().map_err(pf)?;
+    Ok(())
+}
+
+/// The same text on both sides of the ANSI switch: typed with ANSI off (emoji and raw text on offer), the word is ended in
+/// one of five ways (finish, commit, ctrl-backspace, plain backspaces down to nothing, or left as it is and erased),
+/// update-engine switches ANSI on (idle), and the SAME text is typed again - every list is judged, and the other
+/// direction (ANSI on -> off) must give pre-edit text equal to the candidates.  Both methods.
+fn same_text_across_the_ansi_switch(run: &Run) {
+    let p = pools();
+    let mut texts: Vec<(bool, String)> = vec![];
+    for w in ["a", "k", "ami", "cool", ":)", "+1", "smile", "\"k\"", "x`", "rri"] {
+        texts.push((true, w.to_string()));
+    }
+    texts.extend(p.emoticons.iter().step_by(run.tier.pick(23, 3)).map(|e| (true, e.clone())));
+    texts.extend(p.emoji_names.iter().step_by(run.tier.pick(97, 11)).map(|e| (true, e.clone())));
+    for w in ["k", "vmi", ";)", "B]", "hvsi", "\"k\""] {
+        texts.push((false, w.to_string()));
+    }
+    run.exhaustive(
+        "same-text-on-both-sides-of-the-ansi-switch",
+        &texts,
+        |_| (),
+        |(phonetic, w), st, _| {
+            for english in [false, true] {
+                for end in 0..5u8 {
+                    for to_ansi in [true, false] {
+                        ansi_switch_case(run, *phonetic, w, english, end, to_ansi, st)?;
+                        st.count("ansi-switch-checks", 1);
+                    }
+                }
+            }
+            st.label("same-text-across-the-ansi-switch");
+            Ok(())
+        },
+    );
+}
+
 pub fn run(run: &Run) {
+    same_text_across_the_ansi_switch(run);
     learned_then_ansi(run);
     dictionary_pass(run);
     suffix_pass(run);
@@ -392,6 +472,9 @@ pub fn run(run: &Run) {
 }
 
 pub fn replay(run: &Run, case: &Value) -> Result<(), Failure> {
+    if let Some(a) = case.get("ansi_switch") {
+        return ansi_switch_case(run, a["phonetic"].as_bool().unwrap_or(true), a["text"].as_str().unwrap_or_default(), a["english"].as_bool().unwrap_or(false), a["ending"].as_u64().unwrap_or(0) as u8, a["to_ansi"].as_bool().unwrap_or(true), &mut Stats::new());
+    }
     let opts = Opts::parse(case["opts"].as_str().unwrap_or_default());
     let mut st = Stats::new();
     let sb = Sandbox::new();
